@@ -238,6 +238,8 @@ Quiescent == IsStep /\ cur.op # "ParStep"
 C12_AllCallsReturn_ == (IsStep /\ cur.op = "ParEnd") => cur.res = "ok"
 \* closing always completes and leaves the source free of litestream's read lock and open handles
 C12_NoLeakAfterClose_ == (Quiescent /\ ~cur.open) => (~cur.hasRead /\ ~cur.handles)
+\* no leaked lock: once every call has returned, the executor semaphore and the checkpoint lock are free
+C12_NoLeakedLock_ == Quiescent => (cur.execFree /\ cur.chkFree)
 \* registering the same path concurrently yields exactly one managed instance
 C12_SingleInstance_ == (IsStep /\ cur.op = "ParEnd") => cur.ndbs <= 1
 \* the probe: with litestream closed and no application reader, the application's TRUNCATE checkpoint is not blocked
@@ -263,6 +265,7 @@ C05_CatchesUp == V("C05_CatchesUp", C05_CatchesUp_)
 C12_AllCallsReturn == V("C12_AllCallsReturn", C12_AllCallsReturn_)
 C12_NoLeakAfterClose == V("C12_NoLeakAfterClose", C12_NoLeakAfterClose_)
 C12_SingleInstance == V("C12_SingleInstance", C12_SingleInstance_)
+C12_NoLeakedLock == V("C12_NoLeakedLock", C12_NoLeakedLock_)
 C12_SourceNotPinned == V("C12_SourceNotPinned", C12_SourceNotPinned_)
 C01_RestoreEqualsSource == V("C01_RestoreEqualsSource", C01_RestoreEqualsSource_)
 C01_RestoreIntegrity == V("C01_RestoreIntegrity", C01_RestoreIntegrity_)
